@@ -120,6 +120,10 @@ def schema_targets(pdf, d):
         out[f"sk_merge_lr_{how}"] = lambda how=how: d.merge(small.rename(columns={"a": "a2"}), left_on="a", right_on="a2", how=how)
         out[f"sk_merge_ridx_{how}"] = lambda how=how: d.merge(small.set_index("a"), left_on="a", right_index=True, how=how)
         out[f"sk_join_{how}"] = lambda how=how: d[["a", "b"]].join(d[["a", "c"]].partitions[[1, 2, 3]], lsuffix="_x", rsuffix="_y", how=how)
+    for bc in (None, True):
+        out[f"sk_merge_semi_{bc}"] = lambda bc=bc: d.merge(small, on="a", how="leftsemi", broadcast=bc)
+        out[f"sk_merge_semi_parts_{bc}"] = lambda bc=bc: d.merge(small, on="a", how="leftsemi", broadcast=bc).partitions[[1, 3]]
+        out[f"sk_merge_outer_parts_{bc}"] = lambda bc=bc: d.merge(small, on="a", how="left", broadcast=bc).partitions[[0, 2]]
     out["sk_sort_ignore_index"] = lambda: d.set_index("b").sort_values("c", ignore_index=True)
     out["sk_sort_ignore_index_str"] = lambda: d.set_index("s").sort_values("rid", ignore_index=True)
     out["sk_value_counts"] = lambda: d.a.value_counts()
